@@ -452,6 +452,133 @@ impl SubCheck for Streams {
 	}
 }
 
+// ---------------------------------------------------------------------------------------------
+// a stream dropped while the client's request queue is full: the later notification must trigger the unsubscribe
+// ---------------------------------------------------------------------------------------------
+
+#[derive(Clone, Debug, Serialize, Deserialize)]
+pub struct FullQueueCase {
+	pub before: u8,
+	pub pushes_after: u8,
+	pub packed: bool,
+	pub string_sub_id: bool,
+	pub id_kind: IdK,
+	pub cap: u8,
+}
+
+pub struct DroppedWithFullQueue;
+
+/// returns (number of unsubscribe requests naming the id, table sizes after the unsubscribe was acknowledged)
+pub async fn full_queue_scenario(case: &FullQueueCase, fails: &mut Vec<(String, String)>) -> (usize, Option<[usize; 4]>, bool) {
+	use jsonrpsee_core::client::ClientT;
+	let mut mc = MockClient::new(ClientCfg { id_kind: case.id_kind, sub_buffer: case.cap.max(1) as usize, max_concurrent_requests: 1 });
+	let c = mc.client.clone();
+	let h = tokio::spawn(async move { c.subscribe::<Value, _>("sub", rpc_params![], "unsub").await });
+	settle().await;
+	let wire = mc.new_wire();
+	let Some(id) = wire_id_of(&wire, "sub") else {
+		fails.push(("c05/subscribe-not-on-wire".into(), String::new()));
+		return (0, None, false);
+	};
+	let sid = if case.string_sub_id { json!("SUB") } else { json!(4242) };
+	mc.push_text(json!({"jsonrpc":"2.0","id":id,"result":sid}).to_string());
+	settle().await;
+	let Some(Ok(Ok(mut stream))) = h.now_or_never() else {
+		fails.push(("c05/subscribe-failed".into(), String::new()));
+		return (0, None, false);
+	};
+	let notif = |n: u64| json!({"jsonrpc":"2.0","method":"n","params":{"subscription":sid,"result":n}});
+	for k in 0..case.before.min(case.cap.max(1)) {
+		mc.push_text(notif(k as u64).to_string());
+		settle().await;
+		let got = stream.next().now_or_never();
+		if !matches!(got, Some(Some(Ok(_)))) {
+			fails.push(("c05/stream-did-not-yield-item".into(), format!("{got:?}")));
+		}
+	}
+	// call A hangs inside the transport's send, call B fills the only slot of the request queue
+	mc.shared.send_plans.lock().push_back(SendPlan::Gate("g".into()));
+	let ca = mc.client.clone();
+	let cb = mc.client.clone();
+	let ta = tokio::spawn(async move { ca.request::<Value, _>("call_a", rpc_params![]).await.is_ok() });
+	settle().await;
+	let tb = tokio::spawn(async move { cb.request::<Value, _>("call_b", rpc_params![]).await.is_ok() });
+	settle().await;
+	// the application lets go of the stream now: the notice to the background task does not fit into the queue
+	drop(stream);
+	settle().await;
+	mc.shared.gates.open("g");
+	settle().await;
+	let wire = mc.wire_all();
+	for m in ["call_a", "call_b"] {
+		if let Some(id) = wire_id_of(&wire, m) {
+			mc.push_text(json!({"jsonrpc":"2.0","id":id,"result":0}).to_string());
+		}
+	}
+	settle().await;
+	let _ = (ta.now_or_never(), tb.now_or_never());
+	let count = |mc: &MockClient| mc.wire_all().iter().filter(|m| m["method"] == json!("unsub") && m["params"] == json!([sid])).count();
+	let lost = count(&mc) == 0;
+	// "... exactly one whenever ... a further notification for it arrives"
+	let n = case.pushes_after.max(1) as u64;
+	if case.packed && n >= 2 {
+		mc.push_text(Value::Array((0..n).map(|k| notif(100 + k)).collect()).to_string());
+	} else {
+		for k in 0..n {
+			mc.push_text(notif(100 + k).to_string());
+			settle().await;
+		}
+	}
+	settle().await;
+	let after = count(&mc);
+	// acknowledge the unsubscribe and look at the tables
+	let wire = mc.wire_all();
+	if let Some(uid) = wire_id_of(&wire, "unsub") {
+		mc.push_text(json!({"jsonrpc":"2.0","id":uid,"result":true}).to_string());
+	}
+	settle().await;
+	#[cfg(feature = "hooks")]
+	let sizes = Some(mc.client.verif_table_sizes());
+	#[cfg(not(feature = "hooks"))]
+	let sizes = None;
+	if !mc.client.is_connected() {
+		fails.push(("c05/client-disconnected".into(), format!("{:?}", mc.shared.events.lock())));
+	}
+	(after, sizes, lost)
+}
+
+impl SubCheck for DroppedWithFullQueue {
+	type Case = FullQueueCase;
+	fn name(&self) -> &'static str {
+		"dropped-with-full-request-queue"
+	}
+	fn cases(&self, tier: Tier) -> u32 {
+		tier.pick(3_000, 60_000)
+	}
+	fn strategy(&self, _tier: Tier) -> BoxedStrategy<FullQueueCase> {
+		(0u8..3, 1u8..4, any::<bool>(), any::<bool>(), prop_oneof![Just(IdK::Number), Just(IdK::String)], 1u8..4)
+			.prop_map(|(before, pushes_after, packed, string_sub_id, id_kind, cap)| FullQueueCase { before, pushes_after, packed, string_sub_id, id_kind, cap })
+			.boxed()
+	}
+	fn run(&self, case: &FullQueueCase, obs: &mut Obs) {
+		let rt = rt();
+		rt.block_on(async {
+			let mut fails = vec![];
+			let (n, _sizes, lost) = full_queue_scenario(case, &mut fails).await;
+			if lost {
+				obs.nontrivial();
+				obs.class("drop-notice-lost-queue-full");
+			} else {
+				obs.class("drop-notice-delivered");
+			}
+			obs.check(n == 1, "c05/dropped-stream-unsubscribe-count", || format!("{n} unsubscribe requests after a further notification arrived (drop notice lost: {lost}); case={case:?}"));
+			for (s, d) in fails {
+				obs.fail(s, format!("{d}; case={case:?}"));
+			}
+		});
+	}
+}
+
 pub fn check(ctx: &mut Ctx) {
 	ctx.rule = "histories over 1..4 subscriptions (numeric/string subscription ids) and a method-notification handler: server pushes for live / closed / unknown ids, close(error) notifications, plain notifications with and without a registered handler, \
 		each maximal run of pushes delivered singly or packed into arrays (generated partition), polls of each stream, unsubscribe(), drop; buffer capacity 1..4; settling after every step (exact bounded-queue model) or not (order-insensitive part only). \
@@ -459,12 +586,13 @@ pub fn check(ctx: &mut Ctx) {
 		Non-trivial = >= 2 subscriptions, or a close / lag, or an array of >= 2 messages; distinct by case value."
 		.into();
 	ctx.assumptions = vec![
-		"the client's request queue (256) always has room in these histories, so a dropped live stream must produce exactly one unsubscribe request".into(),
+		"in the generated histories the client's request queue (256) always has room, so a dropped live stream must produce exactly one unsubscribe request; the full-queue case (drop notice lost, unsubscribe triggered by the next notification) is the dedicated sub-check dropped-with-full-request-queue".into(),
 		"an unsubscribe()/drop after the server already closed the subscription may send no request".into(),
 	];
 	ctx.run_sub(&Streams);
+	ctx.run_sub(&DroppedWithFullQueue);
 }
 
 pub fn replay(file: &serde_json::Value) -> Option<i32> {
-	replay_with(&Streams, file, "C05")
+	replay_with(&Streams, file, "C05").or_else(|| replay_with(&DroppedWithFullQueue, file, "C05"))
 }
